@@ -72,6 +72,36 @@ def F_io(ctx, lib):
                 ctx.ob(rule, "%s.filter[%s]" % (kind, c), got == {symx.vbool(c == "U")}, where=cb.where(), expected="re-restrict iff undecided",
                        found=sorted(symx.show(x) for x in got))
         ctx.floor(rule, kind + " undecided-filter", n, 1)
+    # biodivine: the list every open condition is restricted by in a round is exactly var_list(current interpretation) - built from the interpretation as it
+    # stood at the start of the round (S.F-full decides its content) and not touched afterwards.  A list extended during the sweep substitutes values under
+    # indices that were never checked against the positions they belong to.
+    try:
+        b = lib.one("adfbiodivine::Adf::grounded_internal")
+        d = flow.Defs(b)
+        sites = [(bb, t, ci) for bb, t, ci in b.calls() if "biodivine_lib_bdd" in (ir.callee_path(ci) or "") and flow.last(ir.callee_path(ci)) == "restrict"]
+        n_sites = 0
+        for bb, t, ci in sites:
+            n_sites += 1
+            e = d.expr_call(t, bb)
+            arg = strip_copy(e[3][1]) if e[0] == "call" and len(e[3]) > 1 else None
+            is_vl = arg is not None and arg[0] == "call" and flow.sg(arg[1]).endswith("adfbiodivine::Adf::var_list")
+            # the local that holds the list (destination of the var_list call): no mutable borrow
+            holders = [tt["dest"]["l"] for _, tt, cc in b.calls() if flow.sg(ir.callee_path(cc) or "").endswith("adfbiodivine::Adf::var_list") and not tt["dest"]["p"]]
+            holder = holders[0] if len(holders) == 1 else None
+            muts = []
+            if holder is not None:
+                hs = {holder}
+                for _, _, s_ in b.statements():   # moves of the list into its binding
+                    if s_["k"] == "assign" and s_["rv"]["k"] == "use" and s_["rv"]["o"]["k"] == "move" and s_["rv"]["o"]["pl"]["l"] in hs and not s_["pl"]["p"]:
+                        hs.add(s_["pl"]["l"])
+                for _, _, s_ in b.statements():
+                    if s_["k"] == "assign" and s_["rv"]["k"] == "ref" and s_["rv"].get("mut") and s_["rv"]["pl"]["l"] in hs:
+                        muts.append(b.where(s_.get("loc")))
+            ctx.ob(rule, "bio.restrict-list-is-var_list", is_vl and holder is not None and not muts, where=b.where(t.get("loc")),
+                   expected="ac.restrict(&var_list) with var_list = self.var_list(&new_interpretation), never mutated", found="%s; mutable borrows of the list at %s" % (flow.show(arg)[:120] if arg else None, muts))
+        ctx.floor(rule, "bio restriction sites in grounded_internal", n_sites, 1)
+    except LookupError as e:
+        ctx.lost(rule, "adfbiodivine::Adf::grounded_internal", str(e))
     # biodivine grounded
     try:
         b = lib.one("adfbiodivine::Adf::grounded")
@@ -82,10 +112,15 @@ def F_io(ctx, lib):
         ok = (names == ["iter", "map", "collect"] and src[0] == "call" and flow.sg(src[1]).endswith("adfbiodivine::Adf::grounded_internal")
               and strip_copy(src[3][1]) == ("field", ("param", 1), "ac"))
         ctx.ob(rule, "bio.grounded", ok, where=b.where(), expected="grounded_internal(&self.ac.clone()).iter().map(Into::into).collect()", found=flow.show(ret)[:220])
-        if ok:
+        marg = steps[1][1][0] if ok else None
+        if ok and marg[0] == "fnitem":
+            # .map(Term::from): the conversion itself is the mapped function
+            okf = "From<&biodivine_lib_bdd::Bdd>" in marg[1] and "datatypes::bdd::Term as" in marg[1]
+            ctx.ob(rule, "bio.grounded-map", okf, where=b.where(), expected="<Term as From<&Bdd>>::from (table: S.T-term From<&Bdd>)", found=marg[1])
+        elif ok:
             cb = lib.body(steps[1][1][0][1])
             conv = [ir.callee_path(ci) for _, t, ci in cb.calls()]
-            okc = len(conv) == 1 and conv[0] is not None and "Into" in conv[0]
+            okc = len(conv) == 1 and conv[0] is not None and ("Into" in conv[0] or "From<&biodivine_lib_bdd::Bdd>" in conv[0])
             tgt = [ci.get("impl", {}).get("args") for _, t, ci in cb.calls()]
             okt = bool(tgt) and tgt[0] and len(tgt[0]) == 2 and ir.ty_str(tgt[0][1]).endswith("Term") and "biodivine_lib_bdd::Bdd" in ir.ty_str(tgt[0][0])
             ctx.ob(rule, "bio.grounded-map", okc and okt, where=cb.where(), expected="<&Bdd as Into<Term>>::into (table: S.T-term From<&Bdd>)", found=conv)
